@@ -795,8 +795,13 @@ func (s *sharedEntryAttributes) GetHighestPrecedence(result LeafVariantSlice, on
 }
 
 func (s *sharedEntryAttributes) getHighestPrecedenceLeafValue(ctx context.Context) (*LeafEntry, error) {
+	// an entry that is deleted on the device has no value any longer, even though its running value is still loaded
+	if s.shouldDelete() {
+		return nil, fmt.Errorf("error no value present for %s", s.Path())
+	}
 	for _, x := range []string{"existing", "default"} {
-		lv := s.leafVariants.GetHighestPrecedence(false, true)
+		// the value that is in effect when the transaction made it through
+		lv := s.leafVariants.GetHighestPrecedenceRemaining()
 		if lv != nil {
 			return lv, nil
 		}
